@@ -142,3 +142,43 @@ func isZero(t *core.Term) bool {
 }
 
 var _ = ssa.Value(nil)
+
+// joinTerm: JoinMessages appends the terminator completely after every
+// message, whatever the size of the caller's buffer.  Accepted mechanisms: the
+// terminator is read through its own reader (io.MultiReader(msg,
+// strings.NewReader(term)): library contract), or — when it is copied by hand —
+// the path knows the copy to have taken all of it.
+func (c *Ctx) joinTerm(rule string) {
+	fn := c.fn("(*joinReader).Read")
+	term := c.P.Field("joinReader", "term")
+	ok, why := true, "the terminator is delivered through its own reader, or copied only where the copy is known to be complete"
+	uses := 0
+	c.explore(rule, fn, core.Opts{Unroll: 0, RecordLoads: true}, func(p *core.Path) {
+		for i := range p.Events {
+			ev := &p.Events[i]
+			if ev.Kind != core.EvCall || len(ev.Args) == 0 {
+				continue
+			}
+			usesTerm := false
+			for _, a := range ev.Args {
+				if _, is := fieldLoad(strip(a), term); is {
+					usesTerm = true
+				}
+			}
+			if !usesTerm {
+				continue
+			}
+			uses++
+			if ev.Builtin == "copy" {
+				res := ev.Result
+				full := hasLit(p, len(p.Lits), true, func(t *core.Term) bool {
+					return t.Kind == core.KEq && ((t.Args[0] == res && t.Args[1].Kind == core.KLen) || (t.Args[1] == res && t.Args[0].Kind == core.KLen))
+				}) || hasLit(p, len(p.Lits), false, func(t *core.Term) bool { return t.Kind == core.KLt && t.Args[0] == res && t.Args[1].Kind == core.KLen })
+				if !full {
+					ok, why = false, "the terminator is copied into the caller's buffer at "+c.P.Pos(ev.Instr.Pos())+" without knowing that all of it fitted: with a read buffer shorter than the terminator part of it is silently dropped (the result depends on how the application sizes its reads)"
+				}
+			}
+		}
+	})
+	c.R.Check(rule, shortFn(fn), "terminator-delivered-completely", fn.Pos(), ok && uses > 0, why)
+}
